@@ -118,6 +118,8 @@ def make_message(dns, case, factory=None):
 
 def show_fields_py(payload) -> str:
     name = type(payload).__name__
+    if name not in FIELDS and name != "Record_A6":
+        return "?" + name            # None / a class we do not know: an observation for the oracle, not a crash
     if name == "Record_A6":
         return f"a{payload.prefixLen}:{payload.suffix.hex()}:{payload.prefix.name.hex()}"
     out = []
